@@ -214,6 +214,44 @@ theorem exact_fits {c : ClassD} {ρ : Env} {r : V.Rd} (hA : Agree c ρ r) (e : E
     have := toNat_lt hd
     omega
 
+/-- Python side: once the guarded arm's constant matched, the later arms (different constants, no `case _`) do nothing -/
+theorem later_noop (c : ClassD) (k : Int) : ∀ (rest : Stmt) (s s' : St), laterDistinct k rest = true →
+    execD c (some k) rest s = some s' → s' = s := by
+  intro rest
+  induction rest with
+  | arm v g body r _ ihr =>
+    intro s s' hl he
+    cases v with
+    | const k' =>
+      simp only [laterDistinct, Bool.and_eq_true] at hl
+      have hne : (k' != k) = true := by simpa using hl.1
+      simp only [execD, evalD] at he
+      split at he
+      · simp at he
+      · rename_i pv hpv
+        split at hpv
+        · simp only [Option.some.injEq] at hpv; subst hpv
+          have : (k == k') = false := by
+            have : k' ≠ k := by simpa using hne
+            simpa using (fun h => this h.symm)
+          simp only [this, Bool.false_eq_true, if_false] at he
+          exact ihr s s' hl.2 he
+        · simp at hpv
+    | _ => simp [laterDistinct] at hl
+  | dflt b _ =>
+    intro s s' hl he
+    rw [laterDistinct] at hl
+    cases b <;> simp [isSkipS] at hl
+    simpa [execD] using he.symm
+  | skip => intro s s' hl; simp [laterDistinct] at hl
+  | seq a b _ _ => intro s s' hl; simp [laterDistinct] at hl
+  | setLoc n e => intro s s' hl; simp [laterDistinct] at hl
+  | setAttr n e => intro s s' hl; simp [laterDistinct] at hl
+  | put w e => intro s s' hl; simp [laterDistinct] at hl
+  | prep w e => intro s s' hl; simp [laterDistinct] at hl
+  | ife cnd t e _ _ => intro s s' hl; simp [laterDistinct] at hl
+  | mtch subj ch _ => intro s s' hl; simp [laterDistinct] at hl
+
 /-- THE STATEMENT THEOREM (sequential bodies).  Executing the translated body on a Verilog procedural state related to the
     Python object state yields a related state: integers hold the Python values (blocking `=`  =  Python assignment), the
     non-blocking queue is the list of prepared values in program order (`<=`  =  `prepare`), nothing else is written. -/
@@ -332,9 +370,8 @@ theorem trS_sound_aux {σ : Type} {rd : σ → V.Rd} {wr : σ → V.Tgt → V.BV
   | arm v g body rest ihb ihr =>
     intro sv subj s s' x hok he hr hs
     rw [okSg] at hok
-    simp only [Bool.and_eq_true, Option.isNone_iff_eq_none] at hok
+    simp only [Bool.and_eq_true] at hok
     obtain ⟨⟨⟨⟨hg, hokv⟩, hex⟩, hokb⟩, hokr⟩ := hok
-    subst hg
     rcases hs with ⟨hsv, _⟩ | ⟨xv, w, hsv, hsubj, hdx, hfit⟩
     · subst hsv; simp [execD] at he
     · subst hsv; subst hsubj
@@ -370,17 +407,59 @@ theorem trS_sound_aux {σ : Type} {rd : σ → V.Rd} {wr : σ → V.Tgt → V.BV
             have e1 : (xv.toNat == pv.toNat) = false := by simpa using hne
             have e2 : (xv == pv) = false := by simpa using h
             rw [e1, e2]
-        simp only [trS, V.exec, hvv, hsvv, Bool.and_self, Bool.true_and, heq]
-        split at he
-        · rename_i hxe
-          rw [hxe]
-          simp only [if_true]
-          exact ihb none none s s' x hokb he hr (Or.inl ⟨rfl, rfl⟩)
-        · rename_i hxe
-          have : (xv == pv) = false := by simpa using hxe
-          rw [this]
-          simp only [Bool.false_eq_true, if_false]
-          exact ihr (some xv) _ s s' x hokr he hr (Or.inr ⟨xv, w, rfl, rfl, hdx, hfit⟩)
+        cases g with
+        | none =>
+          simp only [trS, V.exec, hvv, hsvv, Bool.and_self, Bool.true_and, heq]
+          split at he
+          · rename_i hxe
+            rw [hxe]
+            simp only [if_true]
+            exact ihb none none s s' x hokb he hr (Or.inl ⟨rfl, rfl⟩)
+          · rename_i hxe
+            have : (xv == pv) = false := by simpa using hxe
+            rw [this]
+            simp only [Bool.false_eq_true, if_false]
+            exact ihr (some xv) _ s s' x hokr he hr (Or.inr ⟨xv, w, rfl, rfl, hdx, hfit⟩)
+        | some ge =>
+          -- guarded arm: emitted as `v: if (guard) body`; exact because no later arm can match (`laterDistinct`)
+          simp only [guardOK, Bool.and_eq_true] at hg
+          simp only [trS, V.exec, hvv, hsvv, Bool.and_self, Bool.true_and, heq]
+          split at he
+          · rename_i hxe
+            rw [hxe]
+            simp only [if_true]
+            simp only at he
+            split at he
+            · rename_i gv hgv
+              have hc := (trE_both hr.agree ge (typedE hr ge)).2 gv hg.1 hgv
+              simp only [V.exec, hc]
+              split at he
+              · rename_i hgt
+                rw [hgt]
+                exact ihb none none s s' x hokb he hr (Or.inl ⟨rfl, rfl⟩)
+              · rename_i hgt
+                have hgf : Py.truthy gv = false := by simpa using hgt
+                rw [hgf]
+                -- Python goes on to the later arms, which cannot match: the state is unchanged, as in the Verilog
+                cases v with
+                | const k =>
+                  have hpk : pv = k := by
+                    simp only [evalD] at hpv
+                    split at hpv <;> simp_all
+                  have hxk : xv = k := by
+                    have : xv = pv := by simpa using hxe
+                    rw [this, hpk]
+                  subst hxk
+                  have := later_noop c xv rest s s' hg.2 he
+                  subst this
+                  simpa [V.exec] using hr
+                | _ => simp at hg
+            · simp at he
+          · rename_i hxe
+            have : (xv == pv) = false := by simpa using hxe
+            rw [this]
+            simp only [Bool.false_eq_true, if_false]
+            exact ihr (some xv) _ s s' x hokr he hr (Or.inr ⟨xv, w, rfl, rfl, hdx, hfit⟩)
   | dflt body ih =>
     intro sv subj s s' x hok he hr _
     rw [okSg] at hok
